@@ -23,7 +23,7 @@ CHECKS = {
  "C04": dict(text="Proof (Coq): for every script output, status, prior target state and surrounding file system: status table (206/207/own), failure leaves the target path untouched, success installs exactly the output, no $3 left, no other file touched (C04_job). Tie: serial model vs implementation on output-channel/failure histories. Oracle: exhaustive behaviour matrix (13 behaviours incl. killed scripts and deleted $3 x 2 sizes x 3 prior states) and a concurrent reader on the implementation.",
     note=TB + " A-RENAME: rename(2) is atomic; a script that writes $1 itself has changed the file (redo adds no effect and reports 206).",
     technique="Coq proof by case analysis over the job's effect function + exhaustive behaviour matrix on the implementation", ref="5/C04"),
- "C05": dict(text="Proof (Coq, partial): a target failed in this run is answered with status 32 without touching anything; without --keep-going run_loop starts nothing after a failure; a non-zero job marks its row failed in this run; a failed row is dirty in every later check. " + SERIAL + PARTIAL + " The -j>1 clause rests on the scheduler model of C09.",
+ "C05": dict(text="Proof (Coq, partial): a target failed in this run is answered with status 32 without touching anything; without --keep-going run_loop starts nothing after a failure; a non-zero job marks its row failed in this run; a failed row is dirty in every later check; a failing job makes its command exit non-zero; a failure mark survives every dirtiness check and a row with a recorded edge to a failed row is never found clean by a run that has not verified it itself (C05_dependent_of_failed_not_clean, for every database/fuel/callback) -- exercised with failure-tolerant scripts ('redo-ifchange d || true'). " + SERIAL + PARTIAL + " The -j>1 clause rests on the scheduler model of C09.",
     note=TB + " Serial (-j1) semantics; job status vs command status as in DESIGN.md C04/C05.",
     technique="Coq proof of failure-handling rules + model/implementation differential check over failing histories", ref="5/C05"),
  "C06": dict(text="Proof (Coq): the lock/job protocol as a transition system over the events the hooked implementation reports (acquired, busy, release, forced, job start, job recorded, process end): on every accepted event sequence of any number of processes there is at most one running script per file id, every running script's lock is held by a live process, and a lock can be released only after the result was recorded (C06_mutex, C06_recorded_before_release). Tie: trace validation on 2..5 contending top-level invocations (redo / redo-ifchange, mixed -j, failing scripts); the model refuses e.g. a holder that ends while its script runs (finding F2). Oracle: work sections written by the scripts themselves never overlap per target.",
@@ -38,17 +38,17 @@ CHECKS = {
  "C12": dict(text="Proof (Coq, partial): the three detection rules return 208 at once without starting a job (target being built by an ancestor; script asking for its own target; recorded chain returning to a file under check); cycles of length 1..3 from every entry on the serial model. On the implementation: cycles of length 1..4 behind prefixes, every entry, -j1..4, bound 15 s. The parallel multi-entry hang is known finding F9.",
     note=TB + " termination of the nested recursion is not proved in Coq.",
     technique="Coq proof of the detection rules + bounded-time cyclic scenarios on the implementation", ref="5/C12"),
- "C08": dict(text="Proof (Coq): for every event sequence of any number of redo processes (start, nested begin, token read, cheat, reap with/without cheat byte, release, self-test, exit) the quantity Q = T - C + sum(my - cheats) + J - L is conserved; all books and pipes stay non-negative; working jobs <= n + outstanding cheats; the top-level self-test cannot fail; the tokenless exit of finding F7 is exactly the event the model refuses. Tie: trace validation -- every token-book event reported by the hooked implementation in real parallel builds (-j1..8, log capture on/off, failing builds, inherited jobserver) is replayed through the extracted model, which must accept it and reproduce the reported book and pipe writes. Oracles: self-test message, inherited pipe content, measured work overlap.",
+ "C08": dict(text="Proof (Coq): for every event sequence of any number of redo processes (start, nested begin, token read, cheat, reap with/without cheat byte, release, abandon-on-error-exit, self-test, exit) the quantity Q = T - C + sum(my - cheats) + J - L is conserved; all books and pipes stay non-negative; working jobs <= n + outstanding cheats; the top-level self-test cannot fail; the tokenless exit of finding F7 is exactly the event the model refuses. Tie: trace validation -- every token-book event reported by the hooked implementation in real parallel builds (-j1..8, log capture on/off, failing builds, inherited jobserver, error exits with sibling jobs still running) is replayed through the extracted model, which must accept it and reproduce the reported book and pipe writes. Oracles: self-test message, inherited pipe content, measured work overlap.",
     note=TB + " A-PIPE; the hook verif_token_event is trusted to report the book after each mutation; abort paths (abandoned jobs) are outside the model.",
     technique="Coq invariant proof over a transition system + trace validation of the implementation's own token events", ref="5/C08"),
  "C10": dict(text="Proof (Coq, partial): while a job installs its output the target shows the old bytes until the very last effect and the complete new bytes after it, nothing in between; the enumerated effect sequence is the one record_new_state performs; a failing job never touches the target. The crash state between the rename and the recording commit is finding F8: its refutation is evaluated on the serial model. Decision on the implementation (fault enumeration): an LD_PRELOAD shim numbers every state-changing call (rename, unlink, create/truncate, ftruncate, writes to the state database and its WAL) of every process of a build; for every kill point the calling redo process or the whole process group is killed immediately before the call, then recovery (redo-ifchange; edit a source; redo-ifchange) is checked: termination, exit 0, every target correct, nothing marked overridden, the edit propagated. Known findings F8 and F18 are recognised by their window in the call log.",
     note=TB + " A-SQLITE-ATOMIC; the shim sees calls made through libc; quick tier samples the database writes (every fourth), thorough tier takes every call.",
     technique="Coq proof of crash-prefix structure + exhaustive kill-point enumeration on the implementation", ref="5/C10"),
- "C11": dict(text="Proof (Coq): a job for an existing file that is not redo's own (never generated, overridden, or stamp no longer the recorded one) returns 0 and leaves every file as it was (C11_user_file_untouched); dirtiness checks and query commands touch no file; finishing a job touches only its own target and $3. " + SERIAL + PARTIAL,
+ "C11": dict(text="Proof (Coq): over WHOLE builds and histories of the serial model (Build/Protect.v): a file that exists, is outside redo's reserved names and is not claimed by a database row (never generated, overridden, or stamp differs) is left byte-for-byte alone and stays protected by every build (any project, command line, environment, fuel: C11_build_protects) and by every history of commands and user edits of other files (C11_history_protects); a user's write protects the file (C11_user_write_protected, under A-STAMP). One-job theorems: a job for an existing file that is not redo's own (never generated, overridden, or stamp no longer the recorded one) returns 0 and leaves every file as it was (C11_user_file_untouched); dirtiness checks and query commands touch no file; finishing a job touches only its own target and $3. " + SERIAL + PARTIAL,
     note=TB + " A-STAMP: a user replacement with identical mtime and size is indistinguishable by design.",
     technique="Coq proof of the guard conditions on start_self + model/implementation differential check + user-file preservation oracle", ref="5/C11"),
  "C13": dict(
-    text="Proof (Coq): the iterator state machine of possible_do_files equals the documented candidate order for every absolute path (C13_order), with ordering/argument lemmas. Tie: exhaustive + random differential run of the extracted model against redo::possible_do_files built from the working tree; an independent Python rendering of the documented order is the failing-input oracle; re-selection after adding/removing candidates is exercised by the serial harness (profile defaults).",
+    text="Proof (Coq): the iterator state machine of possible_do_files equals the documented candidate order for every absolute path (C13_order), with ordering/argument lemmas. Tie: exhaustive + random differential run of the extracted model against redo::possible_do_files built from the working tree; an independent Python rendering of the documented order is the failing-input oracle; end to end (lib/e2e_c13.py): histories over default.x.do / default.y.x.do / default.do and specific .do files that come and go, names repeating the matched extension, run by the real binaries and the serial model, with $1 $2 $3 of every script start checked against the documented rule.",
     note=TB + " Existence tests and sh argument passing are the OS's.",
     technique="Coq proof (iterator = declarative spec) + model/implementation differential check",
     ref="5/C13"),
@@ -66,7 +66,7 @@ CHECKS = {
  "C17": dict(text="Proof (Coq): the three query commands change nothing but the run-id counter (files, rows, dependency records identical); targets and sources are disjoint; what is in neither list is a special name or a file missing on disk; the ood walk touches no file. The two bounds on redo-ood are decided against the implementation. " + SERIAL,
     note=TB + " redo-ood's rolled-back write is modelled as discarded.",
     technique="Coq proof of read-only/partition facts + model/implementation differential check with query commands at every point", ref="5/C17"),
- "C18": dict(text="Proof (Coq): (a) format/parse round trip for every well-formed record (text may contain '@@ ' or '@@REDO:'), soundness of parse, done-record round trip. Tie: exhaustive small strings + random + malformed stream, model vs redo::logs::Meta. Part (b) is decided on the implementation: numbered stderr lines (long, trailing blanks, unterminated) at -j1..4 must appear once, in order, under their own target in the live output and in redo-log -r; catlog is not modelled in Coq (PARTIAL); finding F11 is known.",
+ "C18": dict(text="Proof (Coq): (a) format/parse round trip for every well-formed record (text may contain '@@ ' or '@@REDO:'), soundness of parse, done-record round trip. Tie: exhaustive small strings + random + malformed stream, model vs redo::logs::Meta. Part (b) is decided on the implementation: numbered stderr lines (long, trailing blanks, unterminated, one line delivered in 3-5 fragments) at -j1..4 must appear once, in order, under their own target in the live output and in redo-log -r; catlog is not modelled in Coq (PARTIAL); finding F11 is known.",
     note=TB + " f64 timestamps modelled as integers in 1e-4 s; signs/exponents/inf/nan in timestamps are outside the model.",
     technique="Coq proof (round trip) + exhaustive model/implementation differential check", ref="5/C18"),
 }
